@@ -1,6 +1,8 @@
 package props
 
 import (
+	"path/filepath"
+	"os/exec"
 	"encoding/json"
 	"flag"
 	"fmt"
@@ -153,6 +155,7 @@ func TestProp(t *testing.T) {
 
 	var failClass string
 	var lastFail *ReplayFile
+	var firstFail *ReplayFile // the failing case as found (confirmed in a fresh process), before minimisation
 	clean := false // once a failure is being confirmed / minimised every execution starts from a clean process state
 	stop := false
 	// rapid's own shrink deadline is only checked between coarse steps; bound
@@ -243,6 +246,12 @@ func TestProp(t *testing.T) {
 						again = true
 					}
 				}
+				// ... and in a process that has executed nothing else (state that
+				// only a fresh process lacks: package-level caches of a changed tree)
+				if again && !RaceMode {
+					vv := v
+					again = freshProcessConfirms(&ReplayFile{Property: *fProp, Engine: engName, Case: cj, Expect: &vv}, engName)
+				}
 				if !again {
 					clean = false
 					a.out.Unconfirmed++
@@ -254,6 +263,7 @@ func TestProp(t *testing.T) {
 			if failClass == "" {
 				failClass = v.Key()
 				shrinkUntil = time.Now().Add(shrinkFor)
+				firstFail = lastFail
 			}
 			rt.Fatalf("VIOLATION %s: %s", v.Key(), v.Msg)
 		}
@@ -266,6 +276,11 @@ func TestProp(t *testing.T) {
 		tb := &capTB{}
 		rapid.Check(tb, prop)
 		if tb.failed && lastFail != nil {
+			if firstFail != nil && lastFail != firstFail && !RaceMode && !freshProcessConfirms(lastFail, engName) {
+				// minimisation inside this process leaned on state a fresh process
+				// lacks: report the case as it was found
+				lastFail = firstFail
+			}
 			lastFail.Seed = seed
 			a.out.Failure = lastFail
 			break
@@ -288,6 +303,42 @@ func TestProp(t *testing.T) {
 			os.Exit(2)
 		}
 	}
+}
+
+// freshProcessConfirms executes the case alone in a new process of this test
+// binary and says whether the same violation (property, class) shows there.
+func freshProcessConfirms(rf *ReplayFile, engName string) bool {
+	dir, err := os.MkdirTemp("", "verif-confirm-")
+	if err != nil {
+		return true // cannot tell: leave the decision to the orchestrator's replays
+	}
+	defer os.RemoveAll(dir)
+	b, _ := json.Marshal(rf)
+	in, out := filepath.Join(dir, "case.json"), filepath.Join(dir, "res.json")
+	if os.WriteFile(in, b, 0o644) != nil {
+		return true
+	}
+	cmd := exec.Command(os.Args[0], "-test.run", "TestProp", "-test.cpu", "1", "-test.timeout", "5m",
+		"-verif.prop="+rf.Property, "-verif.engine="+engName, "-verif.replay="+in, "-verif.out="+out)
+	cmd.Env = os.Environ()
+	if err := cmd.Run(); err != nil {
+		// a crash of the system under test in the fresh process reproduces a crash class only
+		return rf.Expect != nil && rf.Expect.Class == "crash"
+	}
+	rb, err := os.ReadFile(out)
+	if err != nil {
+		return false
+	}
+	var res simrt.Result
+	if json.Unmarshal(rb, &res) != nil {
+		return false
+	}
+	for _, v := range res.Violations {
+		if rf.Expect != nil && v.Property == rf.Expect.Property && v.Class == rf.Expect.Class {
+			return true
+		}
+	}
+	return false
 }
 
 // cleanProcessState empties what earlier cases may have left in process-global
